@@ -27,12 +27,15 @@ NoLayout == <<>>
 
 Amp(k) == 10 + k                  \* first stimulus, sample k (nA)
 Amp2(k) == 100 * k                \* second stimulus on the same compartment
+Amp3(k) == 1000 + 3 * k           \* stimulus fed with data_stimulate (functional) into compartment 0
 Cl(k) == 1000 + 7 * k             \* clamp value of sample k
 K1 == 4                           \* mV per nA and step of compartment 1
 
 S0 == [v |-> <<0, 0, 0>>, c |-> 0]
-\* one step with input sample x = [i, cl]: stimulus current of this step, clamp value (or -1: none)
-Step(S, x) == [v |-> <<S.v[1] + 1, S.v[2] + K1 * x.i, IF x.cl >= 0 THEN x.cl ELSE S.v[3]>>, c |-> S.c + 1]
+K0 == 2                           \* mV per nA and step of compartment 0
+\* one step with input sample x = [i, d, cl]: static stimulus on compartment 1, data-fed stimulus on compartment 0,
+\* clamp value of compartment 2 (or -1: none)
+Step(S, x) == [v |-> <<S.v[1] + 1 + K0 * x.d, S.v[2] + K1 * x.i, IF x.cl >= 0 THEN x.cl ELSE S.v[3]>>, c |-> S.c + 1]
 Rec(S) == <<S.v[1], S.v[2], S.v[3], S.c>>      \* record order: v of comps 0, 1, 2, then A_s of comp 0
 
 (* configuration of one integrate call *)
@@ -47,6 +50,7 @@ Sample(cfg, k) ==
   LET kk == cfg.off + k
       inRange == k <= cfg.tin /\ k <= Steps(cfg)
   IN [i  |-> IF inRange THEN Amp(kk) + (IF cfg.two THEN Amp2(kk) ELSE 0) ELSE 0,
+      d  |-> IF cfg.dat /\ inRange THEN Amp3(kk) ELSE 0,       \* data_stimulate on ANOTHER compartment than the static stimulus
       cl |-> IF ~cfg.clamp THEN 0 - 1 ELSE IF inRange THEN Cl(kk) ELSE 0]
 
 (* nested_checkpoint_scan: reshape the inputs to the layout and recurse; returns carry and all outputs *)
@@ -73,11 +77,11 @@ Run(cfg, Sinit) ==
       ret  |-> IF AS_CODED_RET THEN r.carry ELSE flat.carry,   \* the state at the last returned time point
       n    |-> n]
 
-Configs == [tin : 1..MaxIn, tmax : 0..(MaxIn + 1), two : BOOLEAN, clamp : BOOLEAN, L : Layouts \cup {NoLayout}, off : {0}]
+Configs == [tin : 1..MaxIn, tmax : 0..(MaxIn + 1), two : BOOLEAN, clamp : BOOLEAN, dat : BOOLEAN, L : Layouts \cup {NoLayout}, off : {0}]
 
 VARIABLES cfg, phase, obs, n1
 ivars == <<cfg, phase, obs, n1>>
-Init == cfg = [tin |-> 1, tmax |-> 0, two |-> FALSE, clamp |-> FALSE, L |-> NoLayout, off |-> 0]
+Init == cfg = [tin |-> 1, tmax |-> 0, two |-> FALSE, clamp |-> FALSE, dat |-> FALSE, L |-> NoLayout, off |-> 0]
         /\ phase = "choose" /\ obs = <<>> /\ n1 = 0
 Choose(c) == /\ phase = "choose" /\ c \in Configs
              /\ cfg' = c /\ phase' = (IF Refused(c) THEN "refused" ELSE "chosen") /\ UNCHANGED <<obs, n1>>
@@ -90,6 +94,10 @@ Next == (\E c \in Configs : Choose(c)) \/ Observe \/ (\E k \in 1..MaxIn : Split(
 Spec == Init /\ [][Next]_ivars
 
 (* ------------------------------ properties ------------------------------ *)
+\* C08: a data-fed stimulus adds its charge to exactly its own compartment, next to the static inputs of others
+DataStimulusLandsOnItsCompartment ==
+  phase = "observed" => \A k \in 1..obs.n :
+     obs.recs[k + 1][1] - obs.recs[k][1] = 1 + K0 * (IF cfg.dat /\ k <= cfg.tin THEN Amp3(k) ELSE 0)
 Flat(c) == [c EXCEPT !.L = NoLayout]
 \* C06: any checkpoint layout returns the recordings of the plain run
 LayoutOrderIsIdentity == phase = "observed" => obs.recs = Run(Flat(cfg), S0).recs
@@ -108,5 +116,5 @@ SampleKActsInStepK ==
 \* C08: a clamped state equals its clamp value at every returned time point after the first
 ClampHolds == (phase = "observed" /\ cfg.clamp) => \A k \in 1..obs.n : obs.recs[k + 1][3] = Cl(k)
 \* C08: the counter state shows that column k is the state after exactly k steps
-ColumnKIsAfterKSteps == phase = "observed" => \A k \in 0..obs.n : obs.recs[k + 1][4] = k /\ obs.recs[k + 1][1] = k
+ColumnKIsAfterKSteps == phase = "observed" => \A k \in 0..obs.n : obs.recs[k + 1][4] = k /\ (cfg.dat \/ obs.recs[k + 1][1] = k)
 =============================================================================
